@@ -184,9 +184,12 @@ ForgeWith(e, f) ==
   /\ UNCHANGED <<sub, snv, scl>>
 IsForeign(x, f) == /\ TokenFixed(x) /\ ~TokenException(x, f)
                    /\ IF f.k = "connless" THEN f.tok # x.own \/ f.rt # x.their ELSE f.tok # Expected(x)
+\* the most dangerous forgeries: copies of genuine datagrams in flight towards e with a foreign token
+Stolen(e) == LET x == ep[e]  ds == net[Peer(e)] IN
+             UNION {{[ds[j] EXCEPT !.tok = t] : t \in ForeignTokens(x)} : j \in 1..Len(ds)}
 Forge(e) ==
   /\ cnt.forge < MaxForge
-  /\ \E f \in Forged(ep[e]) : IsForeign(ep[e], f) /\ ForgeWith(e, f)
+  /\ \E f \in Forged(ep[e]) \cup Stolen(e) : IsForeign(ep[e], f) /\ ForgeWith(e, f)
 
 \* ----------------------------------------------------------------- C02: the fair suffix
 DeliverOldest(e) == /\ net[e] # <<>> /\ DeliverAt(e, 1, FALSE) /\ act' = [a |-> "deliver", from |-> e, i |-> 1]
@@ -236,9 +239,9 @@ C02Deadline == \A e \in E : Busy(ep[e]) => NeedsTick(ep[e]) # Inactive
 \* C03: a forged datagram changes nothing
 C03Inert == [][(act'.a = "forge" /\ IsForeign(ep[act'.e], act'.f))
                   => (UNCHANGED <<ep, net, del, ready, answered>> /\ out'.evs = <<>> /\ out'.outs = <<>>)]_vars
-\* tokens handed out are never reserved values
+\* tokens handed out are never reserved values (0.6/DDNet: all-ones and all-zero; 0.7: all-ones)
 C03Tokens == \A e \in E : TokenFixed(ep[e]) =>
-                (IF V7 THEN ep[e].own \notin {"FF", "Z0", "no"} ELSE ep[e].tok \notin {"FF", "Z0"})
+                (IF V7 THEN ep[e].own \notin {"FF", "no"} ELSE ep[e].tok \notin {"FF", "Z0"})
 
 Closed == \E e \in E : ep[e].st = "Disc"
 Quiescent == \/ ep["c"].st = "Unc"
